@@ -3,11 +3,15 @@
 // Writers: unlink from the shared slot, retire with hazard_pointer_free. GC callback: nobody may hold a
 // validated protection; bounded garbage is checked after every retirement.
 #include "ds_common.h"
+#include <sys/mman.h>
+
 #include "hazard_pointer.h"
 
 #define ALIVE 0xA11FEu
 #define DEAD 0xDEADu
 #define NSLOTS 8
+static int nslots = NSLOTS;  // "slots" parameter (1 for the focused publish/validate race)
+static int tight;            // no harness delays
 #define H_VALIDATED 100  // harness perturbation point: reader holds a validated protection
 
 typedef struct hnode {
@@ -121,7 +125,7 @@ static void reader(ds_worker_t* w) {
     int k, got = 0;
     const int want = 1 + (int)(vp_rand(&w->rng) % (unsigned)K);
     for (k = 0; k < want; ++k) {
-      const int s = (int)(vp_rand(&w->rng) % NSLOTS);
+      const int s = (int)(vp_rand(&w->rng) % (unsigned)nslots);
       hnode_t* n = atomic_load(&slots[s]);
       if (!n) continue;
       hazard_pointer_using(r, &n->hazard, (size_t)got);
@@ -139,7 +143,7 @@ static void reader(ds_worker_t* w) {
         vp_violation("C14", "hazard:protected-node-reclaimed", "round %d: reader %d holds a validated hazard pointer to node #%llu which has been reclaimed",
                      cur_round, w->id, (unsigned long long)held[k]->serial);
     vp_point(H_VALIDATED, r, NULL);
-    ds_tiny_delay(&w->rng, 300);
+    if (!tight) ds_tiny_delay(&w->rng, 300);
     for (k = 0; k < got; ++k) {
       if (atomic_load(&held[k]->canary) != ALIVE)
         vp_violation("C14", "hazard:protected-node-reclaimed", "round %d: node #%llu reclaimed while reader %d still uses it", cur_round,
@@ -154,11 +158,11 @@ static void writer(ds_worker_t* w) {
   hazard_pointer_thread_record_t* r = my_rec(w);
   long i;
   for (i = 0; i < quota; ++i) {
-    const int s = (int)(vp_rand(&w->rng) % NSLOTS);
+    const int s = (int)(vp_rand(&w->rng) % (unsigned)nslots);
     hnode_t* n = node_new();
     hnode_t* old = atomic_exchange(&slots[s], n);
     if (old) retire(w, r, old);
-    if ((vp_rand(&w->rng) & 7) == 0) ds_tiny_delay(&w->rng, 200);
+    if (!tight && (vp_rand(&w->rng) & 7) == 0) ds_tiny_delay(&w->rng, 200);
   }
 }
 
@@ -190,11 +194,29 @@ void ds_sub_hazard(void) {
 #ifndef VP_ASAN
   pthread_spin_init(&arena_lock, 0);
   arena_n = 4096;
-  arena = (hnode_t*)calloc(arena_n, sizeof(hnode_t));
   freelist = (hnode_t**)calloc(arena_n * 64, sizeof(hnode_t*));
   uint64_t ar = vp_mix(vp_cfg.seed, 99);
   size_t i;
-  for (i = 0; i < arena_n; ++i) freelist[i] = &arena[i];
+  {
+    // node addresses are spread over regions that lie gigabytes to terabytes apart (heap, and mappings requested at
+    // distant hints), so sorting / searching the published pointers sees large and sign-changing differences
+    static const uintptr_t hints[] = {0, 0x10000000000ULL, 0x10080001000ULL, 0x20000000000ULL, 0x5f0000000000ULL, 0x100000000ULL};
+    const size_t per = arena_n / (sizeof(hints) / sizeof(hints[0]));
+    size_t h, k = 0;
+    for (h = 0; h < sizeof(hints) / sizeof(hints[0]); ++h) {
+      hnode_t* base = NULL;
+      if (hints[h]) {
+        void* m = mmap((void*)(hints[h] + ((uintptr_t)(vp_rand(&ar) % 4096) << 12)), per * sizeof(hnode_t), PROT_READ | PROT_WRITE,
+                       MAP_PRIVATE | MAP_ANONYMOUS, -1, 0);
+        if (m != MAP_FAILED) base = (hnode_t*)m;
+      }
+      if (!base) base = (hnode_t*)calloc(per, sizeof(hnode_t));
+      size_t q;
+      for (q = 0; q < per; ++q) freelist[k++] = &base[q];
+    }
+    arena_n = k;
+    arena = freelist[0];
+  }
   for (i = arena_n - 1; i > 0; --i) {
     size_t j = vp_rand(&ar) % (i + 1);
     hnode_t* t = freelist[i];
@@ -205,8 +227,11 @@ void ds_sub_hazard(void) {
 #endif
   uint64_t rng = vp_mix(vp_cfg.seed, 1414);
   // K is fixed per process (all records of one list must have the same size)
-  K = (int)vp_param("k", 1 + (int)(vp_rand(&rng) % 4));
+  K = (int)vp_param("hpk", 1 + (int)(vp_rand(&rng) % 4));
   if (K > 8) K = 8;
+  nslots = (int)vp_param("slots", NSLOTS);
+  if (nslots < 1 || nslots > NSLOTS) nslots = NSLOTS;
+  tight = (int)vp_param("tight", 0);
   for (cur_round = 0; cur_round < rounds; ++cur_round) {
     const int T = ds_nworkers;
     n_writers = 1 + (int)(vp_rand(&rng) % (unsigned)T);
